@@ -25,6 +25,7 @@ import (
 	"math"
 	"sort"
 	"strings"
+	"time"
 
 	"github.com/VKCOM/statshouse/internal/api"
 	"github.com/VKCOM/statshouse/internal/promql"
@@ -332,15 +333,18 @@ func genScenario(r *verifx.Rng, h *verifx.H) *scenario {
 			}
 			g := base[k][s]
 			if sc.sorted {
+				// the order ClickHouse gives the rows of one second for the ORDER BY text the real code generates
+				tagDesc, skDesc := sqlKeyDirs(sc.by, sc.bySk, sc.fromEnd)
 				sort.SliceStable(g, func(a, b int) bool {
-					c := reprCmp(sc, &g[a], &g[b])
-					if c == 0 {
-						c = keyCmp(&g[a], &g[b])
+					for i, j := range sc.by {
+						if g[a].Tags[j] != g[b].Tags[j] {
+							return (g[a].Tags[j] < g[b].Tags[j]) != tagDesc[i]
+						}
 					}
-					if sc.fromEnd {
-						return c > 0
+					if sc.bySk && g[a].SKey != g[b].SKey {
+						return (g[a].SKey < g[b].SKey) != skDesc
 					}
-					return c < 0
+					return keyCmp(&g[a], &g[b]) < 0
 				})
 			} else {
 				for i := len(g) - 1; i > 0; i-- {
@@ -465,6 +469,45 @@ func genScenario(r *verifx.Rng, h *verifx.H) *scenario {
 	return sc
 }
 
+var sqlDirCache = map[string][]bool{}
+
+// sqlKeyDirs asks the REAL query builder for the text of a table query grouped by these tags and reads the sort
+// direction of every key off its ORDER BY clause (SQL: ASC unless the key itself is followed by DESC). Numeric tags are
+// ordered by their first column (tagN), the string top (index 47) by its string column.
+func sqlKeyDirs(by []int, bySk, fromEnd bool) (tagDesc []bool, skDesc bool) {
+	key := fmt.Sprint(by, bySk, fromEnd)
+	if d, ok := sqlDirCache[key]; ok {
+		return d[:len(by)], d[len(by)]
+	}
+	cols := append([]int(nil), by...)
+	if bySk {
+		cols = append(cols, 47)
+	}
+	text, err := api.VerifTableSQL(cols, fromEnd)
+	if err != nil {
+		panic(err)
+	}
+	i := strings.Index(text, " ORDER BY ")
+	j := strings.Index(text, " LIMIT")
+	if i < 0 || j < i {
+		panic("no ORDER BY clause in " + text)
+	}
+	items := strings.Split(text[i+len(" ORDER BY "):j], ",")
+	if len(items) != 1+2*len(cols) {
+		panic("unexpected ORDER BY clause in " + text)
+	}
+	desc := func(item string) bool { return strings.HasSuffix(strings.TrimSpace(item), " DESC") }
+	d := make([]bool, len(by)+1)
+	for n := range by {
+		d[n] = desc(items[1+2*n])
+	}
+	if bySk {
+		d[len(by)] = desc(items[1+2*len(by)+1])
+	}
+	sqlDirCache[key] = d
+	return d[:len(by)], d[len(by)]
+}
+
 // fixed scenarios first (corpus of the design-round findings), then generated ones
 func fixedScenario(i int) *scenario {
 	row := func(t int64, tag0 int64) api.VerifRow {
@@ -504,13 +547,26 @@ func fixedScenario(i int) *scenario {
 			}
 		}
 		sc.store = [][]cell{{{groups: [][]api.VerifRow{g}}}}
+	case 4: // the row-marker witness of Props/C25 (reqAlias): first answer tags 1 and 3, second answer only tag 2
+		sc.whats = []int{int(promql.DigestCountRaw), int(promql.DigestSumRaw), int(promql.DigestMin), int(promql.DigestMax), int(promql.DigestCardinalityRaw),
+			int(promql.DigestP50), int(promql.DigestP90), int(promql.DigestP99)}
+		sc.sel = nil
+		for _, g := range api.VerifHandlerWhat(sc.whats) {
+			var fs []int
+			for _, d := range g {
+				fs = append(fs, digestField[promql.DigestWhat(d)])
+			}
+			sc.sel = append(sc.sel, fs)
+		}
+		sc.consistent = false
+		sc.store = [][]cell{{{groups: [][]api.VerifRow{{row(10, 1), row(10, 3)}}}}, {{groups: [][]api.VerifRow{{row(10, 2)}}}}}
 	default:
 		return nil
 	}
 	return sc
 }
 
-const nFixed = 4
+const nFixed = 5
 
 // ---------------------------------------------------------------- running
 
@@ -905,9 +961,197 @@ func b2i(b bool) int {
 	return 0
 }
 
+// -mode=getpage: the real handleGetTable (with its own GetLODs and LOD reordering) over a two-LOD time range
+func modeGetPage() {
+	now := time.Now().Unix()
+	nowH := now - now%3600
+	from, to := nowH-54*3600, nowH-50*3600
+	var rowTimes []int64
+	for m := int64(5); m <= 25; m += 5 {
+		rowTimes = append(rowTimes, from+m*60) // old LOD (1m table)
+		rowTimes = append(rowTimes, to-m*60)   // new LOD (1s table)
+	}
+	for _, fe := range []bool{false, true} {
+		for _, limit := range []int{3, 100} {
+			times, more, visits, err := api.VerifHandleGetTable(from, to, fe, limit, rowTimes, api.RowMarker{}, api.RowMarker{})
+			if err != nil {
+				fmt.Printf("getpage fromEnd=%v limit=%d err=%v\n", fe, limit, err)
+				continue
+			}
+			var rel []string
+			for _, t := range times {
+				if t-from < to-t {
+					rel = append(rel, fmt.Sprintf("from+%dm", (t-from)/60))
+				} else {
+					rel = append(rel, fmt.Sprintf("to-%dm", (to-t)/60))
+				}
+			}
+			var vs []string
+			for _, v := range visits {
+				vs = append(vs, fmt.Sprintf("step%d", v.Step))
+			}
+			fmt.Printf("getpage fromEnd=%v limit=%d more=%v rows=[%s] lods-visited=[%s]\n", fe, limit, more, strings.Join(rel, " "), strings.Join(vs, " "))
+		}
+	}
+}
+
+// hpage: one case through the REAL handleGetTable (GetLODs over a range that crosses the 1m/1s table boundary, the
+// caller's LOD ordering, getTableFromLODs, cacheGet -> cache2 -> stub loader). Real times depend on time.Now(); the
+// case is printed in abstract times: old LOD = [100,200) with a row at 100+m for a row at from+m minutes, new LOD =
+// [200,300) with a row at 300-m for a row at to-m minutes (order preserving, so the model sees the same scenario).
+func runHPage(h *verifx.H, r *verifx.Rng, fixed int) {
+	now := time.Now().Unix()
+	nowH := now - now%3600
+	from, to := nowH-54*3600, nowH-50*3600
+	fe := r.Bool()
+	limit := r.Range(1, 8)
+	var oldM, newM []int
+	for m := 1; m < 60; m++ {
+		if r.Chance(1, 8) {
+			oldM = append(oldM, m)
+		}
+		if r.Chance(1, 8) {
+			newM = append(newM, m)
+		}
+	}
+	markAt := -1 // abstract time of the from-marker, -1 = none
+	switch fixed {
+	case 0:
+		fe, limit, oldM, newM = true, 3, []int{5, 10, 15, 20, 25}, []int{5, 10, 15, 20, 25}
+	case 1:
+		fe, limit, oldM, newM = false, 3, []int{5, 10, 15, 20, 25}, []int{5, 10, 15, 20, 25}
+	case 2: // second descending page: continue below the last row of the first page
+		fe, limit, oldM, newM, markAt = true, 4, []int{5, 10, 15}, []int{5, 10, 15}, 295
+	default:
+		if r.Chance(1, 3) && len(oldM)+len(newM) > 0 {
+			k := r.Intn(len(oldM) + len(newM))
+			if k < len(oldM) {
+				markAt = 100 + oldM[k]
+			} else {
+				markAt = 300 - newM[k-len(oldM)]
+			}
+		}
+	}
+	abs2real := func(a int) int64 {
+		if a < 200 {
+			return from + int64(a-100)*60
+		}
+		return to - int64(300-a)*60
+	}
+	real2abs := func(t int64) int {
+		if t-from < to-t {
+			return 100 + int((t-from)/60)
+		}
+		return 300 - int((to-t)/60)
+	}
+	var rowTimes []int64
+	var absRows []int
+	for _, m := range oldM {
+		absRows = append(absRows, 100+m)
+	}
+	for i := len(newM) - 1; i >= 0; i-- {
+		absRows = append(absRows, 300-newM[i])
+	}
+	for _, a := range absRows {
+		rowTimes = append(rowTimes, abs2real(a))
+	}
+	var fromRow api.RowMarker
+	if markAt >= 0 {
+		fromRow = api.RowMarker{Time: abs2real(markAt)}
+	}
+	h.Op("cfg nt=0 by=- bysk=0 fe=%d lim=%d sel=0", b2i(fe), limit)
+	if markAt >= 0 {
+		h.Op("from %d - 0", markAt)
+	} else {
+		h.Op("from 0 - 0")
+	}
+	h.Op("to 0 - 0")
+	h.Op("lod 100 200")
+	h.Op("lod 200 300")
+	for _, a := range absRows {
+		k := 0
+		if a >= 200 {
+			k = 1
+		}
+		h.Op("grp 0 %d", k)
+		h.Op("row 0 %d %d - 0 1,0,0,0,0,0", k, a)
+	}
+	h.Op("hrun")
+	h.Stat("hpage", 1)
+	defer func() {
+		if p := recover(); p != nil {
+			h.Obs("panic")
+			h.Viol("table-panic", "handleGetTable panicked: %v", p)
+		}
+	}()
+	times, more, visits, err := api.VerifHandleGetTable(from, to, fe, limit, rowTimes, fromRow, api.RowMarker{})
+	if err != nil {
+		h.Obs("err-other %v", err)
+		return
+	}
+	if len(visits) > 0 {
+		h.Stat(fmt.Sprintf("hpage.firstlod.step%d", visits[0].Step), 1)
+	}
+	h.Obs("res n=%d more=%d", len(times), b2i(more))
+	for _, t := range times {
+		h.Obs("r %d - 0 1", real2abs(t))
+	}
+	// direct oracle: the page is the first `limit` rows of the window in the requested direction
+	var w []int
+	for _, a := range absRows {
+		if markAt >= 0 && ((!fe && a <= markAt) || (fe && a >= markAt)) {
+			continue
+		}
+		w = append(w, a)
+	}
+	if fe {
+		for i, j := 0, len(w)-1; i < j; i, j = i+1, j-1 {
+			w[i], w[j] = w[j], w[i]
+		}
+	}
+	want := w
+	if len(want) > limit {
+		want = want[:limit]
+	}
+	got := make([]int, len(times))
+	for i, t := range times {
+		got[i] = real2abs(t)
+	}
+	if fmt.Sprint(got) != fmt.Sprint(want) {
+		h.Viol("table-page-lod-order", "handleGetTable(fromEnd=%v, limit=%d) over LODs [100,200) [200,300) returned rows at %v, the first rows of the window in the requested direction are %v", fe, limit, got, want)
+	}
+	if more != (len(w) > limit) {
+		h.Viol("table-hasmore-lod-order", "handleGetTable(fromEnd=%v, limit=%d) has-more=%v, the window holds %d rows", fe, limit, more, len(w))
+	}
+	if fe && len(oldM) > 0 && len(newM) > 0 {
+		h.NonTrivial("descending-multi-lod")
+	}
+}
+
 func main() {
 	h := verifx.New()
+	if h.Mode == "sql" {
+		for _, fe := range []bool{false, true} {
+			for _, by := range [][]int{nil, {1}, {1, 2}} {
+				q, err := api.VerifTableSQL(by, fe)
+				fmt.Printf("fromEnd=%v by=%v err=%v\n  %s\n", fe, by, err, q)
+			}
+		}
+		return
+	}
+	if h.Mode == "getpage" {
+		modeGetPage()
+		return
+	}
 	h.Cases(func(i int, r *verifx.Rng) {
+		if i >= nFixed && i < nFixed+3 {
+			runHPage(h, r, i-nFixed)
+			return
+		}
+		if i >= nFixed+3 && i%25 == 7 {
+			runHPage(h, r, -1)
+			return
+		}
 		sc := fixedScenario(i)
 		if sc == nil {
 			sc = genScenario(r, h)
